@@ -2,6 +2,7 @@ import Percival.Proofs.NetbufStep
 import Percival.Proofs.NetbufRead
 import Percival.Proofs.NetbufWrite
 import Percival.Proofs.NetbufMonSound
+import Percival.Proofs.NetbufAns
 /-!
 # C07 — buffered reader and writer preserve the byte stream exactly and in order
 
@@ -428,5 +429,142 @@ theorem exec_records_readable (ops : List Spec.NetbufMon.Op) :
 open Percival.Model.NetbufStep Percival.Proofs.NetbufMonSound in
 example : ¬ OutReadable (.spin [.succ 4 none] 0 0 .none 0 NetbufRead.init NetbufWrite.init) :=
   fun h => h _ (List.mem_singleton.2 rfl)
+
+/-! ## What the monitor reads from the printed line
+
+`monitor_accepts_model` is about the typed answer `Out.ans o`.  The executables exchange text: `pmodel netbuf` prints
+`Driver.Netbuf.render o`, the framework hands the part before ` | ` to `pmodel netbufmon`, whose
+`Driver.Netbufmon.parseAns` reads it.  The following theorems close the gap between the two (helpers in
+`Proofs/NetbufAns.lean`). -/
+
+open Percival.Model.NetbufStep Percival.Proofs.NetbufMonSound Percival.Proofs.NetbufAns in
+/-- **What the monitor reads is the typed answer.**  `Driver.Netbuf.render o` is, by definition, the tokens
+`Driver.Netbuf.l1Toks o` joined by single spaces, followed by ` | ` and the L2 part (if any).  For every typed output
+`o` — `failed`, `bad-op`, `contract`, `ok` with reader or writer state, `peek`, `ok <n>`, `spin` with any number of
+callback records, any statuses (negative ones included), any byte strings shown as `-`, hex or
+`#<n>:<16 hex digits>` —
+whose records could be printed (`OutReadable`: no `0:<a>:model-oob`) and whose shown byte strings are in the form
+`shownOf` produces (`OutCanon`: not `.hex []`, which is printed `-` exactly like `.none`), the monitor's reader
+`Driver.Netbufmon.parseAns` applied to these tokens gives exactly `Out.ans o`, and cutting the L1 part of the printed
+line at the spaces gives back exactly these tokens (no token contains a space).  Both hypotheses hold for every output
+of every run (`exec_records_readable`, `exec_shown_canonical`); without either the conclusion is false (examples
+below).  Not covered: that `Driver/Loop.loopMon` cuts the line with `String.splitOn " "` (a different splitting
+function than the `String.split ' '` of the statement) and that `tools/vlib.py` cuts at ` | `; `KAT/NetbufAns.lean`
+tests these on an output of every shape. -/
+theorem monitor_reads_printed_answer (o : Out) (hr : OutReadable o) (hc : OutCanon o) :
+    Driver.Netbufmon.parseAns (Driver.Netbuf.l1Toks o) = o.ans ∧
+    Driver.Netbufmon.splitCh ' ' (" ".intercalate (Driver.Netbuf.l1Toks o)) = Driver.Netbuf.l1Toks o ∧
+    Driver.Netbuf.render o =
+      " ".intercalate (Driver.Netbuf.l1Toks o) ++
+        (match Driver.Netbuf.l2Str o with | some s => " | " ++ s | none => "") :=
+  ⟨parseAns_l1Toks o hr hc, split_l1 o, rfl⟩
+
+/-- the tokens of a real line: a `spin` with a success record, a record with a digest, a negative status -/
+example : Driver.Netbuf.l1Toks (.spin [.succ 5 (some (.hex [1, 2])), .succ 70 (some (.digest 70 0x0123456789abcdef)),
+      .status (-1)] 1 2 (.hex [7, 8]) 2 NetbufRead.init NetbufWrite.init) =
+    ["spin", "r=0:5:0102,0:70:#70:0123456789abcdef,-1", "f=1", "peer=2:0708", "sa=2"] := by decide +kernel
+
+open Percival.Model.NetbufStep Percival.Proofs.NetbufMonSound Percival.Proofs.NetbufAns in
+/- the hypotheses are satisfiable on such a line, and each is needed: `.hex []` is printed `-` and read as `.none` -/
+example : OutReadable (.spin [.succ 5 (some (.hex [1, 2])), .status (-1)] 1 2 (.hex [7, 8]) 2 NetbufRead.init
+      NetbufWrite.init) ∧
+    OutCanon (.spin [.succ 5 (some (.hex [1, 2])), .status (-1)] 1 2 (.hex [7, 8]) 2 NetbufRead.init
+      NetbufWrite.init) ∧
+    Driver.Netbufmon.parseAns (Driver.Netbuf.l1Toks (.peek 0 (.hex []) NetbufRead.init)) ≠
+      (Out.peek 0 (.hex []) NetbufRead.init).ans := by
+  refine ⟨fun r hr => ?_, ⟨fun a s hm => ?_, by simp [ShownCanon]⟩, ?_⟩
+  · simp only [List.mem_cons, List.not_mem_nil, or_false] at hr
+    rcases hr with rfl | rfl <;> trivial
+  · simp only [List.mem_cons, List.not_mem_nil, or_false, CbRec.succ.injEq, Option.some.injEq, reduceCtorEq] at hm
+    obtain ⟨_, rfl⟩ := hm
+    simp [ShownCanon]
+  · have e : Driver.Netbuf.l1Toks (.peek 0 (.hex []) NetbufRead.init) = ["peek", "0", "-"] := by decide +kernel
+    rw [e]
+    simp [Driver.Netbufmon.parseAns, Driver.Netbufmon.parseShown, Out.ans, Proofs.DsAns.zero_rt]
+
+open Percival.Model.NetbufStep Percival.Proofs.NetbufAns in
+/-- **Every shown byte string of every run is canonical**: whatever `pmodel netbuf` prints for `peek`, for a callback
+record or for the peer's bytes was made by `shownOf` (`-` only for no bytes, hex for 1..64 bytes, length and FNV-1a
+digest above), from every state and for every sequence of protocol lines. -/
+theorem exec_shown_canonical (s : NetbufStep.St) (ops : List Spec.NetbufMon.Op) :
+    ∀ o ∈ (runOps s ops).2, OutCanon o :=
+  run_canon ops s
+
+open Percival.Model.NetbufStep Percival.Spec.NetbufMon in
+/- the tokens of a run: a callback record with bytes shown, then a `peek` -/
+example : (runOps {} [.netDeliver [1, 2, 3], .rWait 2, .spin, .rPeek]).2.map Driver.Netbuf.l1Toks =
+    [["ok"], ["ok"], ["spin", "r=0:3:0102", "f=0", "peer=0:-", "sa=0"], ["peek", "3", "010203"]] := by decide +kernel
+
+open Percival.Model.NetbufStep Percival.Spec.NetbufMon in
+/-- **Monitor soundness at the level of printed tokens.**  `monitor_accepts_model` with the answers read back from
+the text: for every sequence of protocol lines, cut the L1 part of every line `pmodel netbuf` prints
+(`" ".intercalate (l1Toks o)`, see `monitor_reads_printed_answer`) at the spaces and read the tokens with
+`Driver.Netbufmon.parseAns`, as `pmodel netbufmon` does: `monStep` accepts every one of these answers. -/
+theorem monitor_accepts_printed_run (ops : List Op) :
+    acceptsRun {} (ops.zip ((runOps {} ops).2.map fun o =>
+      Driver.Netbufmon.parseAns (Driver.Netbufmon.splitCh ' ' (" ".intercalate (Driver.Netbuf.l1Toks o))))) = true := by
+  have h : (runOps {} ops).2.map (fun o =>
+      Driver.Netbufmon.parseAns (Driver.Netbufmon.splitCh ' ' (" ".intercalate (Driver.Netbuf.l1Toks o)))) =
+      (runOps {} ops).2.map Out.ans := by
+    apply List.map_congr_left
+    intro o ho
+    rw [Proofs.NetbufAns.split_l1]
+    exact Proofs.NetbufAns.parseAns_l1Toks o (exec_records_readable ops o ho) (exec_shown_canonical {} ops o ho)
+  rw [h]
+  exact monitor_accepts_model ops
+
+open Percival.Model.NetbufStep Percival.Spec.NetbufMon in
+/- the answers read from the text of a run with two success callbacks, an end-of-stream status and a failing `send` -/
+example : (runOps {} [.netDeliver [1, 2, 3, 4, 5], .netEof, .rLoop 2 2 3, .wWrite [7, 8, 9], .netAccept 2, .netSendfail,
+      .spin]).2.map Driver.Netbuf.l1Toks =
+    [["ok"], ["ok"], ["ok"], ["ok"], ["ok"], ["ok"],
+     ["spin", "r=0:5:0102,0:3:0304,1", "f=1", "peer=2:0708", "sa=2"]] := by decide +kernel
+
+open Percival.Model.NetbufStep Percival.Proofs.NetbufAns in
+/-- **The monitor executable says `ok` to every line of the model executable.**  For every sequence of input lines
+(token lists; lines that are no operation included: `pmodel netbuf` prints `bad-op` for them and `pmodel netbufmon`
+accepts exactly that), feed each line to `Driver.Netbuf.step` — whose printed line is the tokens
+`(stepToks s toks).2` joined by single spaces followed by nothing or by ` | ` and the L2 part — and give the line and
+these tokens to `Driver.Netbufmon.step`, the function `loopMon` runs: every verdict is `ok`.  This is
+`monitor_accepts_printed_run` for the step functions of the two executables themselves (`parseOp` included). -/
+theorem exec_monitor_says_ok (lines : List (List String)) :
+    verdicts {} {} lines = List.replicate lines.length "ok" ∧
+    ∀ (s : NetbufStep.St) (toks : List String),
+      (Driver.Netbuf.step s toks).1 = (stepToks s toks).1 ∧
+      ∃ l2, (Driver.Netbuf.step s toks).2 = " ".intercalate (stepToks s toks).2 ++ l2 ∧
+        (l2 = "" ∨ ∃ t, l2 = " | " ++ t) :=
+  ⟨verdicts_ok lines {} {} Proofs.NetbufMonSound.sound_init, step_eq_stepToks⟩
+
+open Percival.Model.NetbufStep Percival.Spec.NetbufMon Percival.Proofs.NetbufAns Percival.Driver in
+/- the tokens are those of real lines, and the monitor executable is not a function that says `ok` to everything: a
+`peek` line claiming three bytes where none were sent is refused -/
+example : (stepToks {} ["r_peek"]).2 = ["peek", "0", "-"] ∧
+    (Netbufmon.step {} ["r_peek"] ["peek", "3", "-"]).2 =
+      "bad peek shows 3 bytes, only 0 were sent before the end" := by
+  refine ⟨by decide +kernel, ?_⟩
+  have h3 : ("3" : String).toNat? = some 3 := Proofs.DsAns.nat_rt 3
+  have ha : Netbufmon.parseAns ["peek", "3", "-"] = .peek 3 .none := by
+    simp [Netbufmon.parseAns, Netbufmon.parseShown, h3]
+  have ho : Netbuf.parseOp ["r_peek"] = some .rPeek := by simp [Netbuf.parseOp]
+  unfold Netbufmon.step; rw [ho, ha]; decide +kernel
+
+/- Full statement (NOT proved): for every output `o` of every run, the tokens `Driver.loopMon` cuts out of the line
+`"> " ++ <L1 part of render o> ++ "\n"` are `">" :: ans` with `Driver.Netbufmon.parseAns ans = o.ans`:
+    theorem monitor_reads_loop_line (ops : List Op) : ∀ o ∈ (runOps {} ops).2,
+      ∃ ans, loopToks (monLine o) = ">" :: ans ∧ Driver.Netbufmon.parseAns ans = o.ans
+   Missing: that the loop's cut of that line — `String.trimAscii`, the legacy `String.splitOn " "` (works on raw
+   byte positions, no lemmas in core), dropping the empty tokens — is `">"` followed by the pieces of the L1 text
+   between its spaces (`loopCutOk o`, the hypothesis `hcut` below; `KAT/NetbufAns.lean` evaluates it at every build on
+   an output of every shape and on the outputs of a run).  Everything after that cut is proved. -/
+open Percival.Model.NetbufStep Percival.Spec.NetbufMon Percival.Proofs.NetbufAns in
+theorem monitor_reads_loop_line_partial (ops : List Op) (o : Out) (ho : o ∈ (runOps {} ops).2)
+    (hcut : loopCutOk o = true) :
+    ∃ ans, loopToks (monLine o) = ">" :: ans ∧ Driver.Netbufmon.parseAns ans = o.ans :=
+  reads_loop_line o (exec_records_readable ops o ho) (exec_shown_canonical {} ops o ho) hcut
+
+open Percival.Model.NetbufStep Percival.Spec.NetbufMon Percival.Proofs.NetbufAns in
+/- the line in question for a real output -/
+example : (runOps {} [.netDeliver [1, 2, 3], .rWait 2, .spin]).2.map monLine =
+    ["> ok\n", "> ok\n", "> spin r=0:3:0102 f=0 peer=0:- sa=0\n"] := by decide +kernel
 
 end Percival.C07
